@@ -309,6 +309,11 @@ def step (cfg : Cfg) (st : St) (op : List String) (impl : String) : LineOut St :
         | none => { state := st2, model := some (mstate ++ " file=" ++ hexOfChars mfile), monitor := mon }
       | _ => { state := st2, model := some (mstate ++ " file=" ++ hexOfChars mfile), monitor := mon }
     | _, _ => bad
+  | ["planttmp", hex] =>
+    -- a compaction temp file left behind by an earlier failed compaction (only between shutdown and reopen)
+    match st.snap, charsOfHex? hex with
+    | some _, some b => if !st.closed then bad else { state := { st with fs := { st.fs with tmp := some b } }, model := some "ok" }
+    | _, _ => bad
   | ["reopen", rj, mc] =>
     match st.snap, parseBool rj, mc.toNat? with
     | some _, some rj, some mc =>
